@@ -85,6 +85,19 @@ func (p *Prog) lockInfoOf(fn *ssa.Function, entry LockSet) *lockInfo {
 	}
 	out := map[*ssa.BasicBlock]LockSet{}
 	li.in[fn.Blocks[0]] = copySet(entry)
+	// blocks that cannot be reached from the entry (dead branches) must not weaken the intersection
+	reach := map[*ssa.BasicBlock]bool{}
+	var mark func(b *ssa.BasicBlock)
+	mark = func(b *ssa.BasicBlock) {
+		if reach[b] {
+			return
+		}
+		reach[b] = true
+		for _, s := range b.Succs {
+			mark(s)
+		}
+	}
+	mark(fn.Blocks[0])
 	changed := true
 	for iter := 0; changed && iter < 50; iter++ {
 		changed = false
@@ -95,6 +108,9 @@ func (p *Prog) lockInfoOf(fn *ssa.Function, entry LockSet) *lockInfo {
 			} else {
 				first := true
 				for _, pr := range b.Preds {
+					if !reach[pr] {
+						continue
+					}
 					po, ok := out[pr]
 					if !ok {
 						continue // not yet computed: optimistic
@@ -110,8 +126,14 @@ func (p *Prog) lockInfoOf(fn *ssa.Function, entry LockSet) *lockInfo {
 						}
 					}
 				}
-				if in == nil {
-					in = LockSet{}
+				if !reach[b] {
+					li.in[b] = LockSet{}
+					continue
+				}
+				if first {
+					// no predecessor evaluated yet: stay optimistic (⊤) and come back
+					changed = true
+					continue
 				}
 			}
 			li.in[b] = in
